@@ -107,6 +107,24 @@ def item_abstract(n):
     return go(n)
 
 
+def search_predicate(F, an, clo):
+    """normal form of the predicate of a search closure applied to the item, with the closure's captures substituted"""
+    if not (clo.op == "agg" and clo.args[0] == "closure"):
+        return None
+    cf = F.fn(clo.args[1]) if isinstance(clo.args[1], str) else None
+    if cf is None:
+        return None
+    sub = analyze_fn(F, cf)
+    rt = sub.ret_term()
+    if rt is None:
+        return None
+    env_ty = nm(cf["body"]["locals"][1]["ty"]) if len(cf["body"]["locals"]) > 1 else ""
+    env = T.refval(clo) if env_ty.startswith("&") else clo
+    from ..engine import State
+    inst = program(F).subst(an, State({}, frozenset()), rt, [env, T.refval(Term("ITEM"))])
+    return norm(inst) if inst is not None else None
+
+
 def check_common(F, rep):
     fn = F.fn("elf_bytes::ElfBytes::find_common_data")
     if fn is None:
@@ -194,24 +212,33 @@ def check_common(F, rep):
             continue
         tan = analyze_fn(F, tfn)
         K = cval(F, cname)
-        finds = [c for c in tan.calls() if c.declared_norm == "iter::Iterator::find"]
-        okc = False
-        for c in finds:
-            clo = c.args[1]
-            if clo.op == "agg" and clo.args[0] == "closure":
-                cf = F.fn(clo.args[1])
-                if cf is not None:
-                    rt = analyze_fn(F, cf).ret_term()
-                    if rt is not None and rt.op == "bin" and rt.args[0] == "Eq" and rt.args[2].op == "const" and rt.args[2].args[1] == K \
-                            and rt.args[1].op == "proj" and rt.args[1].args[1][2] == "sh_type":
-                        okc = True
+        # outcome-based (so that the accessor may delegate to a private helper): the found-outcome is helper(args) and args mention the
+        # first match of a search over the section headers whose predicate is sh_type == K
+        hcalls = []
+        finds = []
+        for v, st in ok_outcomes(tan):
+            for x in v.subterms():
+                if x.op == "call" and x.args[0] == helper and x not in hcalls:
+                    hcalls.append(x)
+        for hc in hcalls:
+            for x in hc.subterms():
+                if x.op == "call" and x.args[0] == "iter::find" and x not in finds:
+                    finds.append(x)
+        okc = bool(finds)
+        for fd in finds:
+            src, clo = fd.args[2][0], fd.args[2][1]
+            pred = search_predicate(F, tan, clo)
+            if not (pred is not None and pred[0] == "Eq" and C(K) in pred[1:] and any(isinstance(y, tuple) and y[0] == "fld" and y[2] == "sh_type" for y in pred[1:])):
+                okc = False
+            nsrc = norm(src)
+            if not (nsrc[0] == "agg" and "ParsingIterator" in str(nsrc[1]) and nsrc[3][3] == C(0)):
+                okc = False      # not a plain forward iteration from the first header
         rep.require(okc, "common-data", "%s:search" % q, wh(tfn["span"]), "first section with sh_type == %s (Iterator::find)" % cname,
                     "%s does not search for the first section with sh_type == %s" % (q, cname))
-        sites = [c for c in tan.calls() if c.callee_qual == helper]
-        good = len(sites) == 1 and cname in arm_args and tuple(item_abstract(norm(x)) for x in sites[0].arg_values()) == arm_args[cname][1]
+        good = len(hcalls) == 1 and cname in arm_args and tuple(item_abstract(norm(x)) for x in hcalls[0].args[2]) == arm_args[cname][1]
         rep.require(good, "common-data", "%s:helper" % q, wh(tfn["span"]), "same helper and argument provenance as find_common_data's %s arm" % cname,
                     "%s and find_common_data's %s arm construct their result differently: %s vs %s"
-                    % (q, cname, [show(item_abstract(norm(x)))[:100] for c in sites for x in c.arg_values()], [show(x)[:100] for x in arm_args.get(cname, ("", ()))[1]]))
+                    % (q, cname, [show(item_abstract(norm(x)))[:100] for c in hcalls for x in c.args[2]], [show(x)[:100] for x in arm_args.get(cname, ("", ()))[1]]))
     # PT_DYNAMIC fallback in both places
     PT = cval(F, "PT_DYNAMIC")
     for q in ("elf_bytes::ElfBytes::find_common_data", "elf_bytes::ElfBytes::dynamic"):
